@@ -52,7 +52,7 @@ def mutation_class(facts, t, depth=0):
     c = t.callee
     n = c.name
     s = " ".join([c.path, c.self_ty or "", c.impl_self or ""])
-    if n in ("insert", "entry", "or_insert_with", "or_insert", "remove", "put", "get_or_insert_with", "retain", "clear") and \
+    if n in ("insert", "entry", "or_insert_with", "or_insert", "remove", "put", "get_or_insert_with", "retain", "clear", "extend") and \
             any(k in s for k in iters.KEYED_TYPES + ("lru::LruCache",)):
         return "keyed"
     if n in ("lock", "deref_mut", "deref", "as_mut", "get_mut", "borrow_mut", "next", "iter_mut", "by_ref", "as_mut_slice",
